@@ -23,6 +23,11 @@ type SlotScope struct {
 	// Slots maps slot names to their content.
 	// Empty string key is the default slot.
 	Slots map[string]*SlotContent
+
+	// parent is the slot scope in effect where the include tag was written. Content
+	// supplied to a component is evaluated against it, so that a <slot> inside that
+	// content refers to the includer's own slots and not back to the content itself.
+	parent *SlotScope
 }
 
 // NewSlotScope creates a new SlotScope for a component.
@@ -71,8 +76,11 @@ func (v *Vue) evalSlot(ctx VueContext, node *html.Node, slotScope *SlotScope) ([
 	// Try to get provided slot content (from explicit include or inherited from layout)
 	if slotScope != nil {
 		if slotContent := slotScope.GetSlot(slotName); slotContent != nil {
-			// Found explicit slot content - evaluate it with the scoped props
+			// Found explicit slot content - evaluate it with the scoped props.
+			// The content belongs to the includer: its own <slot> elements resolve
+			// against the includer's slot scope.
 			result := []*html.Node{}
+			ctx.SlotScope = slotScope.parent
 
 			// If the slot content is a template with v-slot, evaluate it with the props
 			if slotContent.TemplateNode != nil {
@@ -134,6 +142,9 @@ func (v *Vue) evalSlot(ctx VueContext, node *html.Node, slotScope *SlotScope) ([
 			if slotContent := inheritedSlotScope.GetSlot(slotName); slotContent != nil {
 				// Evaluate the inherited slot content (parsed DOM nodes of the page); this
 				// also gives every use of the slot its own copy of the nodes.
+				// A <slot> inside that content must not resolve to the content again.
+				ctx.stack.Push(map[string]any{"__slotScope__": nil})
+				defer ctx.stack.Pop()
 				return v.evaluate(ctx, slotContent.Nodes, 0)
 			}
 		}
